@@ -33,7 +33,7 @@ Definition hb (k : int) (ws : list int) : bytes := hbw (Z.to_nat (to_Z k)) ws.
 '''
 
 ORACLE_NAMES = ['blake2b', 'sha256', 'b58enc', 'b58dec', 'ed_seed_keypair', 'ed_sk_to_pk', 'ed_sk_to_seed', 'ed_sign', 'ed_verify', 'sp_pk', 'sp_sign',
-                'sp_decode', 'sp_verify', 'p2_pk', 'p2_sign', 'p2_decode', 'p2_verify', 'bl_pk', 'bl_sign', 'bl_verify', 'pbkdf2', 'secretbox',
+                'sp_decode', 'sp_parse', 'sp_verify', 'p2_pk', 'p2_sign', 'p2_decode', 'p2_verify', 'bl_pk', 'bl_sign', 'bl_verify', 'pbkdf2', 'secretbox',
                 'secretbox_open', 'to_seed', 'nf_split', 'word_index']
 PRELUDE += ''.join(f'Definition n_{n} := "{n}"%string.\n' for n in ORACLE_NAMES)
 
@@ -222,6 +222,14 @@ def patched(rec: Recorder):
 
     cc_proxy = types.SimpleNamespace(PrivateKey=PrivateKeyProxy, PublicKey=PublicKeyProxy)
 
+    class EcdsaProxy:
+        def __getattr__(self, item):
+            return getattr(real_ecdsa, item)
+
+        @staticmethod
+        def deserialize_compact(ser, *a, **kw):
+            return rec.call('sp_parse', [bytes(ser)], lambda: real_ecdsa.deserialize_compact(ser, *a, **kw), conv=lambda v: [1])
+
     # ---- fastecdsa
     points: dict[int, tuple] = {}   # id(point) -> (point, ('d', int) | ('pk', bytes))
 
@@ -333,13 +341,14 @@ def patched(rec: Recorder):
     def no_getpass(*a, **kw):
         raise RuntimeError('harness: getpass must not be reached')
 
-    saved_k = {n: getattr(K, n) for n in ('hashlib', 'blake2b', 'pysodium', 'coincurve', 'fastecdsa', 'G2', 'Mnemonic', 'getpass')}
+    saved_k = {n: getattr(K, n) for n in ('hashlib', 'blake2b', 'pysodium', 'coincurve', 'ecdsa', 'fastecdsa', 'G2', 'Mnemonic', 'getpass')}
     saved_b58 = E.base58
     saved_env = os.environ.pop('PYTEZOS_PASSPHRASE', None)
     K.hashlib = HashlibProxy()
     K.blake2b = blake2b_proxy
     K.pysodium = SodiumProxy()
     K.coincurve = cc_proxy
+    K.ecdsa = EcdsaProxy()
     K.fastecdsa = fe_proxy
     K.G2 = G2Proxy
     K.Mnemonic = MnemonicProxy
